@@ -3,6 +3,8 @@ package lib
 import (
 	"bytes"
 	"fmt"
+	"os"
+	"os/exec"
 	"reflect"
 
 	"github.com/tdewolff/minify/v2"
@@ -125,8 +127,125 @@ type c13Op struct {
 	ref *plainRef
 }
 
+// c13Extras are two sub-scenarios that run in their own process (VERIF_C13_MODE=extras),
+// because what they find ends the process (race report):
+//   - aliasing: tasks call Bytes on ADJACENT sub-slices of one array (cap > len), the way a
+//     caller slices a larger buffer; nothing outside a call's own slice may be touched;
+//   - external commands: AddCmd minifiers (stdin/stdout and $in/$out file placeholders) are
+//     called repeatedly and from several tasks.
+func c13Extras(env *Env, tape *sim.Tape) *CaseOut {
+	out := &CaseOut{Nontrivial: true}
+	ntasks := 2 + tape.Draw(3)
+	stick := []int{0, 1, 9}[tape.Draw(3)]
+	if tape.Draw(2) == 0 {
+		// external commands
+		m := NewRegistry(DefaultOptions())
+		m.AddCmd("text/x-cmd", exec.Command("/bin/cat"))
+		m.AddCmd("text/x-cmdfile", exec.Command("/bin/cp", "$in.txt", "$out.txt"))
+		var tasks [][]*Op
+		var all []*Op
+		for ti := 0; ti < ntasks; ti++ {
+			var ops []*Op
+			for oi := 0; oi < 1+tape.Draw(2); oi++ {
+				data := []byte(fmt.Sprintf("payload of task %d call %d\n", ti, oi))
+				// the call runs in one scheduler turn: a task blocked in a real wait4 must not
+				// depend on a goroutine that is parked for the scheduler
+				op := &Op{Entry: EPlain, MT: []string{"text/x-cmd", "text/x-cmdfile"}[tape.Draw(2)], In: data, NoYield: true}
+				op.W, op.R = sim.NewSimWriter(nil), sim.NewSimReader(nil, data)
+				ops = append(ops, op)
+				all = append(all, op)
+			}
+			tasks = append(tasks, ops)
+		}
+		sv, st := RunTasks(env.T, tape, m, tasks, stick, 100000, false)
+		out.stat("extras_command_minifier_calls", int64(len(all)))
+		out.TraceHash = st.TraceHash
+		if sv != nil {
+			out.V = &sim.Violation{Kind: sv.Kind, Site: "AddCmd", Detail: sv.Detail}
+			return out
+		}
+		for _, op := range all {
+			if op.Panic != "" {
+				out.V = &sim.Violation{Kind: "panic", Site: "AddCmd", Detail: op.Panic}
+				return out
+			}
+			if op.Err != nil || !bytes.Equal(op.Out, op.In) {
+				out.V = &sim.Violation{Kind: "output-differs", Site: "AddCmd:" + op.MT,
+					Detail: fmt.Sprintf("command minifier (cat / cp $in $out) returned %q err=%v for input %q when called repeatedly from several tasks", op.Out, op.Err, op.In)}
+				return out
+			}
+		}
+		return out
+	}
+	// aliasing
+	var docs []corpus.Doc
+	var dis []int
+	total := 0
+	n := ntasks * (1 + tape.Draw(2))
+	for i := 0; i < n; i++ {
+		di := tape.Draw(len(env.Corpus))
+		if d := env.Corpus[di]; len(d.Data) == 0 || len(d.Data) > 4096 {
+			di = tape.Draw(len(ShortDocs()))
+		}
+		docs = append(docs, env.Corpus[di])
+		dis = append(dis, di)
+		total += len(env.Corpus[di].Data)
+	}
+	arena := make([]byte, 0, total+8)
+	var spans [][2]int
+	for _, d := range docs {
+		spans = append(spans, [2]int{len(arena), len(arena) + len(d.Data)})
+		arena = append(arena, d.Data...)
+	}
+	arena = append(arena, "SENTINEL"...)
+	before := append([]byte(nil), arena...)
+	opts := DefaultOptions()
+	m := NewRegistry(opts)
+	var tasks [][]*Op
+	var all []*Op
+	var refs []*plainRef
+	for i, d := range docs {
+		op := &Op{Entry: EBytes, MT: d.MT, In: arena[spans[i][0]:spans[i][1]], NoCopy: true}
+		refs = append(refs, c13Reference(opts, opts.String(), dis[i], d))
+		all = append(all, op)
+		ti := i % ntasks
+		for len(tasks) <= ti {
+			tasks = append(tasks, nil)
+		}
+		tasks[ti] = append(tasks[ti], op)
+	}
+	sv, st := RunTasks(env.T, tape, m, tasks, stick, 100000, false)
+	out.stat("extras_aliasing_calls", int64(len(all)))
+	out.TraceHash = st.TraceHash
+	if sv != nil {
+		out.V = &sim.Violation{Kind: sv.Kind, Site: "Bytes-adjacent-slices", Detail: sv.Detail}
+		return out
+	}
+	for i, op := range all {
+		if op.Panic != "" {
+			out.V = &sim.Violation{Kind: "panic", Site: "Bytes-adjacent-slices", Detail: op.Panic}
+			return out
+		}
+		if refs[i].Err == nil && !bytes.Equal(op.Out, refs[i].Out) {
+			out.V = &sim.Violation{Kind: "output-differs", Site: "Bytes-adjacent-slices:" + op.MT,
+				Detail: fmt.Sprintf("Bytes on a sub-slice of a shared array returned %q, the sequential call on a private copy returns %q (doc %s)", corpus.Short(op.Out, 80), corpus.Short(refs[i].Out, 80), docs[i].Name)}
+			return out
+		}
+	}
+	// the byte right after the last slice belongs to nobody's input
+	if !bytes.Equal(arena[total:], before[total:]) {
+		out.V = &sim.Violation{Kind: "wrote-outside-slice", Site: "Bytes:" + docs[len(docs)-1].MT,
+			Detail: fmt.Sprintf("after all calls returned the bytes behind the last slice read %q instead of %q: a call wrote beyond len of the slice it was given and did not restore it", arena[total:], before[total:])}
+		return out
+	}
+	return out
+}
+
 // c13Case: N client tasks use one registry with shared option structs at once.
 func c13Case(env *Env, tape *sim.Tape) *CaseOut {
+	if os.Getenv("VERIF_C13_MODE") == "extras" {
+		return c13Extras(env, tape)
+	}
 	out := &CaseOut{}
 	opts := drawOptions(tape)
 	before := opts.Clone()
